@@ -1,5 +1,6 @@
 #include "pols.hpp"
 #include "glue.hpp"
+#include "twpols.hpp"
 
 #include <yorel/yomm2/generator.hpp>
 
@@ -32,6 +33,14 @@ std::string glue_offsets(int slot) {
 }
 
 template<class P>
+std::string glue_offsets_policy() {
+    std::ostringstream os;
+    yorel::yomm2::generator gen;
+    gen.write_static_offsets<P>(os);
+    return os.str();
+}
+
+template<class P>
 std::string glue_encode(
     const yorel::yomm2::detail::compiler<P>& compiler, const char* name) {
     std::ostringstream os;
@@ -47,5 +56,12 @@ YS_GLUE(sdbg)
 YS_GLUE(srel)
 YS_GLUE(sofd)
 YS_GLUE(sofr)
+
+#define YS_GLUE_TW(P)                                                         \
+    template std::string glue_offsets_policy<P>();                            \
+    template std::string glue_encode<P>(                                      \
+        const yorel::yomm2::detail::compiler<P>&, const char*);
+YS_GLUE_TW(tw_dbg)
+YS_GLUE_TW(tw_rel)
 
 } // namespace ys
